@@ -21,6 +21,9 @@ func gen(a vh.Args) {
 	for _, l := range genTanIOCases(sub(a.Seed, 0x10d), a.Tier, a.N) {
 		w.Printf("%s\n", l)
 	}
+	for _, l := range genNhFailCases(sub(a.Seed, 0x110), a.Tier, a.N) {
+		w.Printf("%s\n", l)
+	}
 	for _, l := range genCrashTornCases(sub(a.Seed, 0x10f), a.Tier, a.N) {
 		w.Printf("%s\n", l)
 	}
